@@ -98,8 +98,12 @@ func (fr *frame) instr(in ssa.Instruction, st *State) {
 		res := fr.call(x.Common(), x, st)
 		fr.vals[x] = res
 	case *ssa.Go:
-		s.note("%s: go statement: callee effects applied at the spawn point only (no interleaving)", fk)
-		fr.callOpaqueEffects(x.Common(), st)
+		s.note("%s: go statement: the spawned call is executed synchronously at the spawn point (no interleaving)", fk)
+		if _, isClosure := x.Common().Value.(*ssa.MakeClosure); isClosure || x.Common().StaticCallee() != nil {
+			fr.call(x.Common(), nil, st)
+		} else {
+			fr.callOpaqueEffects(x.Common(), st)
+		}
 	case *ssa.Defer:
 		fr.defers = append(fr.defers, x)
 		name := fmt.Sprintf("D:a%d.%d", fr.act, len(fr.defers))
@@ -207,6 +211,9 @@ func (fr *frame) instr(in ssa.Instruction, st *State) {
 		m := fr.val(x.Map, st)
 		k := fr.val(x.Key, st)
 		v := fr.val(x.Value, st)
+		if n := mapFieldName(x.Map); n != "" {
+			fr.pseudoAt("mapwrite."+n, x, []TV{m, k, v}, st)
+		}
 		mt := x.Map.Type().Underlying().(*types.Map)
 		dn, vn := MapMapNames(mt)
 		ks, vs := SortOf(mt.Key()), SortOf(mt.Elem())
@@ -221,6 +228,9 @@ func (fr *frame) instr(in ssa.Instruction, st *State) {
 	case *ssa.Range:
 		v := fr.val(x.X, st)
 		fr.vals[x] = TV{T: v.T, S: v.S, GT: x.X.Type()}
+		if n := mapFieldName(x.X); n != "" {
+			fr.pseudoAt("mapread."+n, x, []TV{v}, st)
+		}
 		if mt, isMap := x.X.Type().Underlying().(*types.Map); isMap {
 			ks := SortOf(mt.Key())
 			rn := RangeVarName(x)
@@ -599,6 +609,20 @@ func (fr *frame) sliceOp(x *ssa.Slice, st *State) {
 		s.assume(st, fmt.Sprintf("(and (<= 0 %s) (<= %s %s))", lo, lo, h))
 		fr.vals[x] = TV{T: s.define(fr.name(x), "Slice", fmt.Sprintf("(mk-slice %s (- %s %s))", arr, h, lo)), S: "Slice", GT: x.Type()}
 	default:
+		// byte arrays: []byte has value semantics here
+		if SortOf(x.Type()) == "Bytes" {
+			if pt, ok := x.X.Type().Underlying().(*types.Pointer); ok {
+				if at, ok := pt.Elem().Underlying().(*types.Array); ok && at.Len() == 0 {
+					fr.vals[x] = TV{T: "(mk-bytes false str_empty)", S: "Bytes", GT: x.Type()}
+					return
+				}
+			}
+			s.note("%s: slice of a byte array: contents abstracted", FuncKey(fr.fn))
+			nv := s.freshValue(st, fr.name(x), x.Type())
+			s.assume(st, fmt.Sprintf("(not (bnil %s))", nv.T))
+			fr.vals[x] = nv
+			return
+		}
 		// pointer to array: the slice shares the array object
 		if pt, ok := x.X.Type().Underlying().(*types.Pointer); ok {
 			if at, ok := pt.Elem().Underlying().(*types.Array); ok && (lo == "" || lo == "0") {
@@ -620,6 +644,9 @@ func (fr *frame) lookup(x *ssa.Lookup, st *State) {
 	s := fr.s
 	m := fr.val(x.X, st)
 	k := fr.val(x.Index, st)
+	if n := mapFieldName(x.X); n != "" {
+		fr.pseudoAt("mapread."+n, x, []TV{m, k}, st)
+	}
 	if m.S == "Str" {
 		fr.vals[x] = TV{T: fmt.Sprintf("(sat %s %s)", m.T, k.T), S: "Int", GT: x.Type()}
 		return
@@ -660,7 +687,9 @@ func (fr *frame) next(x *ssa.Next, st *State) {
 			rn := RangeVarName(x.Iter.(*ssa.Range))
 			rs := "(Array " + ks + " Bool)"
 			vis := s.getMap(st, rn, rs)
-			dom := fmt.Sprintf("(select %s %s)", d, it.T)
+			// a declared constant (not a macro) so that it can appear in the quantifier pattern
+			dom := s.fresh(fr.name(x)+".dom", "(Array "+ks+" Bool)")
+			s.emit(fmt.Sprintf("(assert (= %s (select %s %s)))", dom, d, it.T))
 			cond := fmt.Sprintf("(=> %s (and (not (= %s 0)) (select %s %s) (not (select %s %s))", ok.T, it.T, dom, k.T, vis, k.T)
 			if v.S == vs {
 				cond += fmt.Sprintf(" (= %s (select (select %s %s) %s))", v.T, vv, it.T, k.T)
@@ -706,5 +735,58 @@ func (fr *frame) ghostDefaults(st *State, ref string) {
 		d := s.eval(env, e)
 		cur := s.getMap(st, "H:"+n, so)
 		st.Maps["H:"+n] = s.define("H:"+n, so, fmt.Sprintf("(store %s %s %s)", cur, ref, d.T))
+	}
+}
+
+// mapFieldName: the struct field a map operand was loaded from ("" if unknown).
+func mapFieldName(v ssa.Value) string {
+	if _, ok := v.Type().Underlying().(*types.Map); !ok {
+		return ""
+	}
+	u, ok := v.(*ssa.UnOp)
+	if !ok {
+		return ""
+	}
+	fa, ok := u.X.(*ssa.FieldAddr)
+	if !ok {
+		return ""
+	}
+	pt, ok := fa.X.Type().Underlying().(*types.Pointer)
+	if !ok {
+		return ""
+	}
+	st, ok := pt.Elem().Underlying().(*types.Struct)
+	if !ok {
+		return ""
+	}
+	return st.Field(fa.Field).Name()
+}
+
+// pseudoAt lets `at mapread.<field>` / `at mapwrite.<field>` clauses attach
+// assertions to map accesses (lock discipline).
+func (fr *frame) pseudoAt(key string, site ssa.Instruction, args []TV, st *State) {
+	s := fr.s
+	if fr.env0 == nil || s.FC == nil {
+		return
+	}
+	for _, at := range s.FC.Ats {
+		if at.Callee != key {
+			continue
+		}
+		env := fr.env0.child()
+		env.st = st
+		for i, a := range args {
+			env.vars["$"+strconv.Itoa(i)] = a
+		}
+		blk := site.Block()
+		env.local = func(name string) (TV, bool) { return fr.lookupLocalBefore(name, blk, site, st) }
+		g := s.evalBool(env, at.C.E)
+		top := fr
+		for top.parent != nil {
+			top = top.parent
+		}
+		top.atCount[at.C.Label]++
+		s.addObl(&Obligation{Name: fmt.Sprintf("%s#at:%s:%s@%d", shortKey(FuncKey(s.Top)), at.Callee, at.C.Label, top.atCount[at.C.Label]), Props: fr.propsOf(at.C), Kind: "call-site-assert", Label: at.C.Label, Goal: fmt.Sprintf("(=> %s %s)", st.Guard, g), Src: at.C.Src})
+		top.atHit[at.C.Label] = true
 	}
 }
